@@ -268,12 +268,12 @@ def body_reflection(case, ctx):
         Mc = M[idx].T                 # column convention
         ctx.check(np.all(np.isfinite(Mc)), "finite reflection matrix", unit=i)
         I = np.eye(n + 1)
-        ctx.small("R^2 = I", Mc @ Mc - I, 1e-9 * sc * sc, unit=i)
-        ctx.small("R preserves the Minkowski form", Mc.T @ Jn @ Mc - Jn, 1e-9 * sc * sc,
+        ctx.small("R^2 = I", Mc @ Mc - I, 1e-11 * sc * sc, unit=i)
+        ctx.small("R preserves the Minkowski form", Mc.T @ Jn @ Mc - Jn, 1e-11 * sc * sc,
                   unit=i)
-        ctx.small("det R = -1", np.linalg.det(Mc) + 1.0, 1e-9 * sc * sc, unit=i)
-        ctx.small("R v = -v", (Mc @ v + v) / math.sqrt(v @ v), 1e-9 * sc, unit=i)
-        ctx.small("R equals I - 2 v (Jv)^T / <v,v>", Mc - refl_col(v), 1e-9 * sc * sc,
+        ctx.small("det R = -1", np.linalg.det(Mc) + 1.0, 1e-11 * sc * sc, unit=i)
+        ctx.small("R v = -v", (Mc @ v + v) / math.sqrt(v @ v), 1e-11 * sc, unit=i)
+        ctx.small("R equals I - 2 v (Jv)^T / <v,v>", Mc - refl_col(v), 1e-11 * sc * sc,
                   unit=i)
         # points of the wall: the object's ideal basis and random vectors projected to v^perp
         check_ideal_basis(ctx, ib[idx], v, n, i, case["route"])
@@ -856,7 +856,8 @@ RANK4 = [  # linear diagrams [p, q, r] of hyperbolic simplex groups (signature (
 @st.composite
 def coxeter_case(draw):
     if draw(st.integers(0, 2)) == 0:
-        return dict(kind="rank4", diagram=list(draw(st.sampled_from(RANK4))))
+        return dict(kind="rank4", diagram=list(draw(st.sampled_from(RANK4))),
+                    perm=list(draw(st.permutations([0, 1, 2, 3]))))
     p = draw(st.integers(2, 6))
     q = draw(st.integers(max(p, 3), 8))
     r = q
@@ -875,7 +876,9 @@ def coxeter_matrix(case):
         m = [[1, a, c], [a, 1, b], [c, b, 1]]
     else:
         p, q, r = case["diagram"]
-        m = [[1, p, 2, 2], [p, 1, q, 2], [2, q, 1, r], [2, 2, r, 1]]
+        m0 = [[1, p, 2, 2], [p, 1, q, 2], [2, q, 1, r], [2, 2, r, 1]]
+        pm = case.get("perm", [0, 1, 2, 3])      # generators listed in another order
+        m = [[m0[pm[i]][pm[j]] for j in range(4)] for i in range(4)]
     return m
 
 
@@ -961,19 +964,19 @@ def nt_reject(labels):
 
 
 LAWS = [
-    Law("reflection_laws", walls_case(), body_reflection, nt_conj, quick=150, thorough=1500,
+    Law("reflection_laws", walls_case(), body_reflection, nt_conj, quick=300, thorough=1500,
         shards=(2, 6)),
-    Law("from_reflection_roundtrip", walls_case(), body_from_reflection, nt_conj, quick=150,
+    Law("from_reflection_roundtrip", walls_case(), body_from_reflection, nt_conj, quick=300,
         thorough=1500, shards=(2, 6)),
-    Law("non_reflection_rejected", nonrefl_case(), body_nonreflection, nt_reject, quick=150,
+    Law("non_reflection_rejected", nonrefl_case(), body_nonreflection, nt_reject, quick=300,
         thorough=1500, shards=(1, 4)),
     Law("fixed_points_elliptic", elliptic_case(), body_fix_elliptic, nt_conj,
-        quick=200, thorough=2000, shards=(2, 8)),
+        quick=400, thorough=2000, shards=(2, 8)),
     Law("fixed_points_loxodromic", fix_case(lox_unit), body_fix_loxodromic, nt_conj,
-        quick=150, thorough=1500, shards=(2, 6)),
+        quick=300, thorough=1500, shards=(2, 6)),
     Law("fixed_points_parabolic", fix_case(par_unit), body_fix_parabolic, nt_conj,
-        quick=150, thorough=1500, shards=(1, 4)),
-    Law("fixed_points_unsorted_option", unsorted_case(), body_unsorted, nt_conj, quick=100,
+        quick=400, thorough=1500, shards=(1, 4)),
+    Law("fixed_points_unsorted_option", unsorted_case(), body_unsorted, nt_conj, quick=300,
         thorough=1000, shards=(1, 4)),
     Law("coxeter_reflections", coxeter_case(), body_coxeter, lambda l: True, quick=60,
         thorough=400, shards=(1, 2)),
